@@ -73,6 +73,9 @@ func genRound3(c *Ctx, which ...string) {
 	if on("ptr-ptr") {
 		genPtrPtrUnmarshalsWhenPresent(c)
 	}
+	if on("handler-ctx") {
+		genHandlerSeesFieldContext(c)
+	}
 }
 
 // (1) `__typename` answers the object's own name: the constant of the object function it stands in.
@@ -1037,5 +1040,81 @@ func genPtrPtrUnmarshalsWhenPresent(c *Ctx) {
 	if n == 0 {
 		c.R.Note("ptr-ptr-unmarshals-when-present/none", "-", "no **T unmarshaler in the materialised configurations")
 		c.R.SetFloor(0)
+	}
+}
+
+// (18) a recovered panic is reported at the field's own path: the recover handler sees the field's context.
+func genHandlerSeesFieldContext(c *Ctx) {
+	c.R.Rule("handler-sees-field-context", "generated field and field-context functions that bind ctx = graphql.WithFieldContext(ctx, fc): the context their deferred recover handler hands to ec.Recover / ec.Error is that bound context (captured by reference, or passed after the binding), not the one the function was entered with", 10)
+	n := 0
+	for _, g := range c.Gen {
+		for _, fn := range c.genFuncs(g) {
+			if fn.Parent() != nil {
+				continue
+			}
+			binds := len(an.CallsIn(fn, func(_ ssa.CallInstruction, ci an.CalleeInfo) bool { return ci.FullName() == pkgGraphql+".WithFieldContext" })) > 0
+			if !binds || !(strings.HasPrefix(fn.Name(), "fieldContext_") || isFieldFuncSig(fn)) {
+				continue
+			}
+			for _, b := range fn.Blocks {
+				for _, in := range b.Instrs {
+					d, ok := in.(*ssa.Defer)
+					if !ok {
+						continue
+					}
+					mc, ok := d.Call.Value.(*ssa.MakeClosure)
+					if !ok {
+						continue
+					}
+					h := mc.Fn.(*ssa.Function)
+					for _, call := range an.CallsIn(h, func(_ ssa.CallInstruction, ci an.CalleeInfo) bool {
+						return strings.HasSuffix(ci.FullName(), "OperationContext).Recover") || strings.HasSuffix(ci.FullName(), "OperationContext).Error")
+					}) {
+						var ctxArg ssa.Value
+						for _, a := range call.Common().Args {
+							if a.Type().String() == "context.Context" {
+								ctxArg = a
+								break
+							}
+						}
+						if ctxArg == nil {
+							continue
+						}
+						n++
+						good := false
+						if p, isP := an.Strip(ctxArg).(*ssa.Parameter); isP {
+							// passed at the defer statement: the argument there must already be the bound context
+							for i, q := range h.Params {
+								if q == p && i < len(d.Call.Args) {
+									good = ctxFromWith("WithFieldContext", d.Call.Args[i], d)
+								}
+							}
+						} else {
+							good = ctxFromWith("WithFieldContext", ctxArg, call)
+							if !good {
+								// captured by reference: the cell is assigned the bound context somewhere in the function
+								if u, ok := an.Strip(ctxArg).(*ssa.UnOp); ok {
+									if fv, ok := u.X.(*ssa.FreeVar); ok {
+										for i, f := range h.FreeVars {
+											if f == fv && i < len(mc.Bindings) {
+												for _, st := range an.CellStores(mc.Bindings[i]) {
+													if cl, ok := an.Strip(st.Val).(*ssa.Call); ok && an.CalleeOf(cl).FullName() == pkgGraphql+".WithFieldContext" {
+														good = true
+													}
+												}
+											}
+										}
+									}
+								}
+							}
+						}
+						c.R.Check(good, "gen:"+g.Name+"/"+fn.Name()+"/handler-ctx", c.ipos(call), "the handler reports under the field's context", "the recover handler reports the panic under the context the function was entered with, not the field's own: the error carries the parent's path (or none, for a root field)")
+					}
+				}
+			}
+		}
+	}
+	if n < 10 {
+		c.R.Fail("handler-sees-field-context: only %d handler calls examined", n)
 	}
 }
